@@ -577,9 +577,71 @@ func c05Huge(c *core.Ctx) {
 	c.NontrivialStr(fmt.Sprintf("huge|%d|%s", n, kind))
 }
 
+// c05Aliased: comparands that are not independent copies but share storage - a slice leaf against a re-slice of itself
+// (one element fewer, same start), a slice against itself (equal). "Differ in length" holds whatever the two share.
+func c05Aliased(c *core.Ctx) {
+	r := c.Rng
+	n := r.Range(2, 9)
+	base := make([]int, n)
+	for i := range base {
+		base[i] = r.Intn(1000)
+	}
+	strs := []string{"p", "q", "r", "s"}
+	kind := Kinds[r.Intn(5)]
+	mk := func(leaf any) stackage.Stack {
+		return NewStack(kind, 0).Push("lead", stackage.Or().Push(stackage.Cond("ports", stackage.Eq, leaf), leaf), "tail")
+	}
+	desc := map[string]any{"len": n, "kind": kind}
+	for _, pair := range [][2]any{{base, base[:n-1]}, {base[:n-1], base}, {strs, strs[:3]}, {base, base[:0]}} {
+		a, b := mk(pair[0]), mk(pair[1])
+		if e1, e2 := a.IsEqual(b), b.IsEqual(a); e1 == nil || e2 == nil {
+			c.Violatef("difference-missed:reslice", desc, "a slice leaf and a shorter re-slice of the very same array compare as %v / %v", e1, e2)
+			return
+		}
+	}
+	if e := mk(base).IsEqual(mk(base[:n])); e != nil {
+		c.Violatef("equal-rejected:reslice", desc, "a slice leaf and an equally long re-slice of it compare as %v", e)
+		return
+	}
+	// a struct leaf with exported structs embedded three levels deep: every field at every level counts
+	mkU := func(id, rev int, tag, name string) DeepUser {
+		return DeepUser{DeepEntity{DeepAudited{DeepBase{id, rev, tag}}}, name}
+	}
+	u0 := mk(mkU(1, 2, "t", "n"))
+	for i, mu := range []DeepUser{mkU(9, 2, "t", "n"), mkU(1, 9, "t", "n"), mkU(1, 2, "T", "n"), mkU(1, 2, "t", "N")} {
+		um := mk(mu)
+		pm := mk(&mu)
+		u0p := mk(func() *DeepUser { v := mkU(1, 2, "t", "n"); return &v }())
+		if e1, e2, e3 := u0.IsEqual(um), um.IsEqual(u0), u0p.IsEqual(pm); e1 == nil || e2 == nil || e3 == nil {
+			c.Violatef("difference-missed:deep-embedded-field", desc, "struct leaves with exported structs embedded three levels deep, differing in field #%d only, compare as %v / %v / %v", i, e1, e2, e3)
+			return
+		}
+	}
+	if e := u0.IsEqual(mk(mkU(1, 2, "t", "n"))); e != nil {
+		c.Violatef("equal-rejected:deep-embedded", desc, "equal deep-embedded struct leaves compare as %v", e)
+		return
+	}
+	c.Count("aliased-and-deep-embedded")
+}
+
+type DeepBase struct {
+	ID, Rev int
+	Tag     string
+}
+type DeepAudited struct{ DeepBase }
+type DeepEntity struct{ DeepAudited }
+type DeepUser struct {
+	DeepEntity
+	Name string
+}
+
 func c05Run(c *core.Ctx, idx int) {
 	if idx%400 == 399 {
 		c05Huge(c)
+		return
+	}
+	if idx%400 == 199 {
+		c05Aliased(c)
 		return
 	}
 	r := c.Rng
